@@ -82,7 +82,7 @@ struct OptRunner {
 			if(!ref) {
 				auto &h = f.at(d); const auto &ch = h; bool e = h.has_value();
 				// every accessor has to name the same held object
-				bool same = !e || (h.operator->() == &*h && &*ch == &*h);
+				bool same = !e || (h.operator->() == &*h && &*ch == &*h && &h.value() == &*h && &ch.value() == &*h);
 				r += pair_json(!same || e != (bool)h ? 9 : (e ? 1 : 0), e ? value_of(*h) : 0);
 			}
 			else { auto &h = s.at(d); r += pair_json(h.has_value() ? 1 : 0, h.has_value() ? value_of(*h) : 0); }
@@ -187,7 +187,11 @@ struct VarRunner {
 					if(h.template is<long long>()) { tag = h.tag() == 0 ? 1 : 9; got = h.template get<long long>(); }
 					else if(h.template is<T>()) { tag = h.tag() == 1 ? 2 : 9; got = value_of(h.template get<T>()); }
 					else { tag = 3; got = value_of(h.template get<Small>()); }
-					r += pair_json(via == got && cvia == got ? tag : 9, got);
+					// the const get<>() names the same object
+					bool cget = h.template is<long long>() ? (const void *)&ch.template get<long long>() == (const void *)&h.template get<long long>()
+						: h.template is<T>() ? (const void *)&ch.template get<T>() == (const void *)&h.template get<T>()
+						: (const void *)&ch.template get<Small>() == (const void *)&h.template get<Small>();
+					r += pair_json(via == got && cvia == got && cget ? tag : 9, got);
 				}
 			} else {
 				auto &h = s.at(d);
